@@ -1663,3 +1663,11 @@ mod test {
         assert_eq!(Some(&server_filter), client.bloom_filter.full_filter());
     }
 }
+
+#[cfg(pendulum_project_ntpd_rs_verif)]
+#[path = "/verif/hooks/ntp_proto/source_probe.rs"]
+mod verif_probe;
+
+#[cfg(pendulum_project_ntpd_rs_verif)]
+#[path = "/verif/hooks/ntp_proto/source_probe_nts.rs"]
+mod verif_probe_nts;
